@@ -425,6 +425,20 @@ def gen_track(defs):
                                                src_of(loop.iter) + ' -> ' + src_of(loop.target)]))
     emit(defs, 'gen_gd_lo', bounds('GenomicArrayGlobal.get_data', 'gen_gd', {}, ['start', 'stop'], get_data_extra))
 
+    def array_function():
+        fn = find_function(tree, 'GenomicArrayGlobal.__array_function__')
+        shape = [src_of(v) for v in assigns_to(fn, 'args')]
+        for n in fn.body:
+            if isinstance(n, ast.If):
+                rets = [x for x in n.body if isinstance(x, ast.Return)]
+                if len(rets) != 1 or n.orelse or len(n.body) != 1:
+                    raise Unsupported('__array_function__: a dispatch branch is not a single return')
+                shape.append(src_of(n.test) + ' -> ' + src_of(rets[0].value))
+            elif isinstance(n, ast.Return):
+                shape.append('-> ' + src_of(n.value))
+        return strlist_def('gen_af_shape', shape)
+    emit(defs, 'gen_af_shape', array_function)
+
     try:
         gtree = parse('bionumpy/genomic_data/global_offset.py')
     except Exception:
